@@ -591,6 +591,96 @@ fn closure_made_cells(report: &mut Report) -> u64 {
     n
 }
 
+/// Content stays in the declared type, by whatever typed route the cell reaches a store: a cell
+/// declared `A` is handed to code that stores through a position declared `B` (wider content
+/// type, or the same as a control) - as a parameter, through a callee whose static type is a
+/// union of function types (made by if / match / a declared result / an array / a parameter),
+/// inside an array, struct, tuple or cell, through a declared result type, a typed declaration,
+/// a type arm, an if-set, `? B`, callbacks of @ and $ and a returned closure. Every program the
+/// checker accepts and that runs leaves the cell holding a member of `A`; with `B` = `A` every
+/// route is accepted and the stored value arrives.
+fn typed_routes_grid(report: &mut Report) -> (u64, u64, u64) {
+    // (cell, its type A, slot type B, value stored through the slot, is the control pair)
+    const PAIRS: &[(&str, &str, &str, &str, bool)] = &[
+        ("mut 1", "mut int", "mut int", "5", true),
+        ("mut int | float 1", "mut (int | float)", "mut (int | float)", "2.5", true),
+        ("mut [int] [1]", "mut [int]", "mut [int]", "[5]", true),
+        ("mut 1", "mut int", "mut (int | float)", "2.5", false),
+        ("mut 1", "mut int", "mut any", "\"s\"", false),
+        ("mut 1", "mut int", "mut (int | string)", "\"s\"", false),
+        ("mut int | float 1", "mut (int | float)", "mut any", "\"s\"", false),
+        ("mut int | float 1", "mut (int | float)", "mut (int | float | string)", "\"s\"", false),
+        ("mut int | float 1", "mut (int | float)", "mut int", "5", false),
+        ("mut [int] [1]", "mut [int]", "mut [any]", "[\"s\"]", false),
+        ("mut [int] [1]", "mut [int]", "mut [int | float]", "[2.5]", false),
+    ];
+    const FNS: &str = "wide := (p: B) -> () { p = W }; narrow := (p: A) -> () { }; flag := mut true; c := CELL;";
+    const ROUTES: &[(&str, &str)] = &[
+        ("parameter", "w := (p: B) -> () { p = W }; c := CELL; w(c); c"),
+        ("callee chosen by if between function types", "FNS h := if *flag wide else narrow; h(c); c"),
+        ("callee chosen by if, other order", "FNS h := if !(*flag) narrow else wide; h(c); c"),
+        ("callee chosen by match", "FNS h := match *flag { true => wide, => narrow, }; h(c); c"),
+        ("callee from a function with a union result", "FNS pick := (first: bool) -> (B) -> () | (A) -> () { if first { return wide }; return narrow }; pick(true)(c); c"),
+        ("callee from an array of both", "FNS hs := [narrow, wide]; i := std.len([0]); hs[i](c); c"),
+        ("callee passed as a union-typed parameter", "FNS app := (h: (B) -> () | (A) -> (), x: A) -> () { h(x) }; app(wide, c); c"),
+        ("callee read from a cell of union function type", "FNS hc := mut (B) -> () | (A) -> () narrow; hc = wide; (*hc)(c); c"),
+        ("callee from a struct field chosen at run time", "FNS s := if *flag struct{ h := wide } else struct{ h := narrow }; s.h(c); c"),
+        ("array element", "w := (ps: [B]) -> () { q := ps[0]; q = W }; c := CELL; w([c]); c"),
+        ("struct field", "w := (s: struct{f: B}) -> () { q := s.f; q = W }; c := CELL; w(struct{ f := c }); c"),
+        ("tuple component", "w := (t: (B, int)) -> () { q := t.0; q = W }; c := CELL; w((c, 1)); c"),
+        ("cell in a cell", "w := (cc: mut B) -> () { q := *cc; q = W }; c := CELL; w(mut c); c"),
+        ("declared result type", "g := (p: A) -> B { return p }; c := CELL; q := g(c); q = W; c"),
+        ("typed declaration of an outer cell", "c := CELL; cc := mut B c; q := *cc; q = W; c"),
+        ("type arm", "c := CELL; x := [c, 1][0]; match x { q: B => { q = W }, => { }, }; c"),
+        ("if-set", "c := CELL; x := [c, 1][0]; if q: B = x { q = W }; c"),
+        ("type filter", "c := CELL; for q in [c, 1]~ ? B { q = W }; c"),
+        ("map callback", "c := CELL; r := [c]~ @ (p: B) -> int { p = W; return 0 } $]; c"),
+        ("reduce callback", "c := CELL; r := [c]~ $ 0 (acc: any, p: B) -> int { p = W; return 0 }; c"),
+        ("returned closure", "mk := () -> (B) -> () { return (p: B) -> () { p = W } }; c := CELL; mk()(c); c"),
+        ("function stored in a typed cell", "c := CELL; fc := mut (A) -> () (p: B) -> () { p = W }; (*fc)(c); c"),
+        ("array of cells declared wider", "c := CELL; cs := mut [B] [c]; q := (*cs)[0]; q = W; c"),
+    ];
+    let (mut n, mut ran, mut rejected) = (0u64, 0u64, 0u64);
+    for (cell, a, b, w, control) in PAIRS {
+        for (rname, rtext) in ROUTES {
+            n += 1;
+            let text = rtext.replace("FNS", FNS).replace("CELL", cell).replace('A', a).replace('B', b).replace('W', w);
+            let o = core::run_text(&text, true, core::QUICK_FUEL);
+            let label = format!("{rname}|cell={}|slot={}", a.replace(" | ", "/"), b.replace(" | ", "/"));
+            match &o {
+                core::Outcome::Value(Variable::Mut(m)) => {
+                    ran += 1;
+                    let content = m.variable.read().map(|g| g.clone()).ok();
+                    let declared = Ty::from_impl(&m.var_type);
+                    let in_type = content.as_ref().is_some_and(|v| belongs(v, &declared));
+                    let shown = content.as_ref().map(canon).unwrap_or_else(|| "<poisoned>".into());
+                    if !in_type {
+                        report.violation(Violation {
+                            sig: format!("C13|typed-route|content-outside-declared-type|{label}"),
+                            detail: json!({"kind": "program", "stdlib": true, "text": text, "cell_declared": declared.print(), "content_afterwards": shown, "expected": "rejected by the checker, or the content still a member of the declared type"}),
+                        });
+                    } else if *control && shown != canon(&Code::parse(&Interpreter::with_stdlib(), w).unwrap().exec().unwrap()) {
+                        report.violation(Violation {
+                            sig: format!("C13|typed-route|store-through-the-route-lost|{label}"),
+                            detail: json!({"kind": "program", "stdlib": true, "text": text, "expected_content": w, "content_afterwards": shown}),
+                        });
+                    }
+                }
+                core::Outcome::Rejected(..) if !*control => rejected += 1,
+                other => {
+                    if *control || !matches!(other, core::Outcome::Rejected(..)) {
+                        report.violation(Violation {
+                            sig: format!("C13|typed-route|{}|{label}", if *control { "control-not-run" } else { "unexpected-outcome" }),
+                            detail: json!({"kind": "program", "stdlib": true, "text": text, "observed": other.tag(), "expected": if *control { "accepted; the cell afterwards holds the stored value" } else { "rejected, or run to the end" }}),
+                        });
+                    }
+                }
+            }
+        }
+    }
+    (n, ran, rejected)
+}
+
 /// runs the loom harnesses that share a cell (`loomcheck C13 <tier>`) and turns their verdicts into C13 violations
 fn concurrent_updates(tier: &str, report: &mut Report) -> Result<(u64, u64), String> {
     let bin = crate::report::verif_root().join("loomcheck/target/release/loomcheck");
@@ -824,6 +914,7 @@ pub fn run(tier: &str) -> i32 {
     report.violations(v);
     let (static_n, static_accepted) = core::on_big_stack(|| static_side(&mut report));
     let n_scenarios = core::on_big_stack(|| scenarios(&mut report));
+    let typed_routes = core::on_big_stack(|| typed_routes_grid(&mut report));
     // second model: the aliasing graph changes (re-binding, fresh copies, tuples, destructuring, capture)
     let (dynamic, dyn_violations) = crate::props::c13dyn::explore(if thorough { 6 } else { 4 });
     report.violations(dyn_violations);
@@ -850,6 +941,7 @@ pub fn run(tier: &str) -> i32 {
         "ill_typed_actions_rejected_as_expected": shared.rejected_as_expected.load(Ordering::Relaxed),
         "failing_updates_with_expected_error_and_unchanged_cell": shared.errors_as_expected.load(Ordering::Relaxed),
         "aliasing_scenarios": n_scenarios,
+        "typed_routes (23 routes by which a cell reaches a store position x 11 (cell type, position type) pairs)": {"programs": typed_routes.0, "ran_to_the_end": typed_routes.1, "rejected_by_the_checker": typed_routes.2},
         "cells_made_from_parameters_and_captures": n_closure_cells,
         "compound_store_cases (c op= v against the binary operator's own answer, by contents, float sign and type tag; failing updates leave the cell)": n_compound,
         "store_identity_cases (old content x new value incl. ==-indistinguishable pairs, literal / parameter / host call)": n_store,
